@@ -206,9 +206,18 @@ public:
      */
     template<typename T>
     T resume(suspend_point<T> &spt) {
+        //the enqueued function owns the prepared coroutine: if the pool is stopped before
+        //a worker can call it, its destruction resumes the coroutine in the thread which
+        //destroys it (as co_await pool does), so the coroutine is never lost. It can
+        //test is_stopped() to find out that it doesn't run in the pool
+        auto fin = [](void *addr) {
+            coro_queue::resume(std::coroutine_handle<>::from_address(addr));
+        };
         while (!spt.empty()) {
             std::coroutine_handle<> h = spt.pop();
-            enqueue([h]{coro_queue::resume(h);});
+            enqueue([hptr = std::unique_ptr<void, decltype(fin)>(h.address(), fin)]() mutable {
+                coro_queue::resume(std::coroutine_handle<>::from_address(hptr.release()));
+            });
         }
         if constexpr(!std::is_void_v<T>) {
             return spt;
